@@ -12,7 +12,7 @@ use crate::base::message::Message;
 use crate::base::message_builder::StreamTarget;
 use crate::base::opt::{AllOptData, OptRecord, TcpKeepalive};
 use crate::base::{ParsedName, Serial};
-use crate::rdata::AllRecordData;
+use crate::rdata::{AllRecordData, Soa};
 use crate::utils::config::DefMinMax;
 use alloc::boxed::Box;
 use alloc::sync::Arc;
@@ -1286,12 +1286,19 @@ where
         | XFRState::IXFRSecondDiffSoa(_) =>
             // Just continue.
             {}
-        XFRState::IXFRFirstSoa(_) => {
-            // We are still in IXFRFirstSoa. Assume the other side doesn't
-            // have anything more to say. We could check the SOA serial in
-            // the request. Just assume that we are done.
-            xfr_state = XFRState::Done;
-            return (true, xfr_state, true);
+        XFRState::IXFRFirstSoa(serial) => {
+            // The message held nothing but the initial SOA record. That is
+            // the complete response if the server has nothing newer than
+            // what we have (RFC 1995 section 4). But a server is free to
+            // send one record per message, so if its serial is newer than
+            // the one in our request this is only the first message of the
+            // response and the rest is still to come.
+            let more_to_come =
+                request_serial(msg).is_some_and(|ours| serial > ours);
+            if !more_to_come {
+                xfr_state = XFRState::Done;
+                return (true, xfr_state, true);
+            }
         }
         XFRState::Done => return (true, xfr_state, true),
         XFRState::Error => unreachable!(),
@@ -1299,6 +1306,22 @@ where
 
     // (eof, xfr_data, is_answer)
     (false, xfr_state, true)
+}
+
+/// Returns the serial of the SOA record in the authority section of an IXFR
+/// request, i.e. the version of the zone that the requester has.
+fn request_serial<CRM>(msg: &CRM) -> Option<Serial>
+where
+    CRM: ComposeRequestMulti,
+{
+    let msg = msg.to_message().ok()?;
+    let soa = msg
+        .authority()
+        .ok()?
+        .limit_to::<Soa<ParsedName<_>>>()
+        .next()?
+        .ok()?;
+    Some(soa.data().serial())
 }
 
 //------------ Queries -------------------------------------------------------
